@@ -316,6 +316,73 @@ func c09(c *core.Ctx) {
 		k.Count("materials_with_related_peer", 1)
 		k.Distinct(fmt.Sprintf("materials|%d|%d", gi, rel))
 	})
+	// the agreement clause through the ONE call a responder makes (NewIKESAKey draws the exponent, computes the public
+	// value and the secret and keys the SA): peer values of every in-domain length - shorter than, equal to and LONGER
+	// than the modulus (0 <= y < 2^2056, also y >= p and y >= 2^(8n)) - with the exponent known through the random
+	// stream; the secret is only visible through the SA keys, which must be those of y^x mod p
+	c.Family("peer-values-of-any-length-through-the-responder-call", c.N(36, 3600), func(k *core.Case) {
+		d := k.Index % 2
+		grp := []int{128, 256}[d]
+		pmod := []*big.Int{ref.P1024, ref.P2048}[d]
+		var y []byte
+		switch k.Index / 2 % 6 {
+		case 0:
+			y = k.R.Bytes(grp)
+		case 1: // longer than the modulus, excess octets not zero
+			y = k.R.Bytes(k.R.Range(grp+1, 257))
+			y[0] |= 1
+		case 2: // 257 octets
+			y = k.R.Bytes(257)
+			y[0] |= 0x80
+		case 3: // sign octet(s) in front
+			y = append(make([]byte, k.R.Range(1, 257-grp)), k.R.Bytes(grp)...)
+		case 4: // short
+			y = k.R.Bytes(k.R.Range(1, grp-1))
+		default: // one excess octet
+			y = append([]byte{byte(1 + k.R.Intn(255))}, k.R.Bytes(grp)...)
+		}
+		if len(y) > 257 {
+			y = y[:257]
+		}
+		yRef := new(big.Int).SetBytes(y)
+		e, i, p := k.R.Intn(3), k.R.Intn(3), k.R.Intn(3)
+		prop, perr := newInfoKey(e, i, p, d).ToProposal()
+		if perr != nil {
+			return
+		}
+		nonces, spii, spir := k.R.Bytes(48), k.R.U64(), k.R.U64()
+		seed := k.R.U64()
+		var x *big.Int
+		var xerr, err error
+		var sa *security.IKESAKey
+		var pub []byte
+		w := M{"group": libsa.DhNames[d], "peer_value": core.Hex(y), "random_stream_seed": seed}
+		k.Eval(1)
+		pn := core.Try(func() {
+			mon.WithRand(core.NewRng(seed), func() { x, xerr = security.GenerateRandomNumber() })
+			mon.WithRand(core.NewRng(seed), func() { sa, pub, err = security.NewIKESAKey(prop, append([]byte{}, y...), nonces, spii, spir) })
+		})
+		if pn != nil {
+			k.Violate("panic", "NewIKESAKey: "+pn.Sig(), "panic", panicData(pn, w))
+			return
+		}
+		if xerr != nil || err != nil || sa == nil {
+			k.Violate("error", "responder-call-refuses-in-domain-peer-value", fmt.Sprint(xerr, err), w)
+			return
+		}
+		if !bytes.Equal(pub, ref.FixedLen(ref.ModExp(big.NewInt(2), x, pmod), grp)) {
+			k.Violate("mismatch", "responder-public-value", "public value is not 2^x mod p of the exponent drawn", w)
+			return
+		}
+		shared := ref.FixedLen(ref.ModExp(yRef, x, pmod), grp)
+		if bad := cmpKeys(sa, ref.DeriveIKE(p, ref.Suite{EncKeyLen: []int{16, 24, 32}[e], Integ: i}, nonces, shared, spii, spir)); bad != "" {
+			k.Violate("mismatch", "responder-secret-not-y^x-mod-p", fmt.Sprintf("peer value of %d octets: the SA keys are not those of the shared secret y^x mod p: %s", len(y), bad), w)
+			return
+		}
+		k.Count(fmt.Sprintf("responder_call_peer_value_class_%d", k.Index/2%6), 1)
+		k.Distinct(fmt.Sprintf("respcall|%d|%d", d, k.Index/2%6))
+	})
+	c.Require("responder_call_peer_value_class_1", "responder_call_peer_value_class_2", "responder_call_peer_value_class_5")
 	c.Family("agreement", c.N(40, 10000), func(k *core.Case) {
 		noiseFor(k)
 		gi := k.Index % 2
